@@ -23,6 +23,7 @@ import (
 	"github.com/ansible/receptor/pkg/randstr"
 	"github.com/ansible/receptor/pkg/tickrunner"
 	"github.com/ansible/receptor/pkg/utils"
+	"github.com/ansible/receptor/pkg/verifhook"
 	priorityQueue "github.com/jupp0r/go-priority-queue"
 	"github.com/minio/highwayhash"
 )
@@ -147,6 +148,7 @@ type Netceptor struct {
 	firewallLock             *sync.RWMutex
 	firewallRules            []FirewallRuleFunc
 	Logger                   *logger.ReceptorLogger
+	vn                       string // verif: node instance label "id@epoch"
 }
 
 // ConnStatus holds information about a single connection in the Status struct.
@@ -204,6 +206,8 @@ type connInfo struct {
 	lastReceivedData time.Time
 	lastReceivedLock *sync.RWMutex
 	logger           *logger.ReceptorLogger
+	vn               string // verif: owning node instance label
+	vsess            string // verif: session label
 }
 
 type nodeInfo struct {
@@ -344,6 +348,8 @@ func NewWithConsts(ctx context.Context, nodeID string,
 		workCommandsLock:         &sync.RWMutex{},
 		Logger:                   logger.NewReceptorLogger(""),
 	}
+	s.vn = fmt.Sprintf("%s@%d", nodeID, s.epoch)
+	verifhook.Emit(s.vn, "node_new", "id", nodeID, "epoch", s.epoch)
 	s.reservedServices = map[string]func(*MessageData) error{
 		"ping":    s.handlePing,
 		"unreach": s.handleUnreachable,
@@ -403,6 +409,7 @@ func (s *Netceptor) Context() context.Context {
 
 // Shutdown shuts down a Netceptor instance.
 func (s *Netceptor) Shutdown() {
+	verifhook.Emit(s.vn, "shutdown")
 	s.cancelFunc()
 }
 
@@ -693,6 +700,7 @@ func (s *Netceptor) AddLocalServiceAdvertisement(service string, connType byte, 
 		ConnType: connType,
 		Tags:     tags,
 	}
+	verifhook.Emit(s.vn, "ad_local", "svc", service, "time", n[service].Time.UnixNano(), "ctype", connType)
 	s.serviceAdsLock.Unlock()
 	select {
 	case <-s.context.Done():
@@ -724,6 +732,7 @@ func (s *Netceptor) RemoveLocalServiceAdvertisement(service string) error {
 	if err != nil {
 		return err
 	}
+	verifhook.Emit(s.vn, "ad_withdraw", "svc", service, "time", sa.Time.UnixNano())
 	s.flood(data, "")
 
 	return nil
@@ -740,6 +749,7 @@ func (s *Netceptor) sendServiceAd(si *ServiceAdvertisement) error {
 	if err != nil {
 		return err
 	}
+	verifhook.Emit(s.vn, "ad_send", "svc", si.Service, "time", si.Time.UnixNano())
 	s.flood(data, "")
 
 	return nil
@@ -797,6 +807,7 @@ func (s *Netceptor) monitorConnectionAging() {
 			s.connLock.RUnlock()
 			for conn := range timedOut {
 				s.Logger.Warning("Timing out connection %s, idle for the past %s\n", conn, s.maxConnectionIdleTime)
+				verifhook.Emit(s.vn, "idle_timeout", "peer", conn)
 				timedOut[conn]()
 			}
 		case <-s.context.Done():
@@ -873,6 +884,9 @@ func (s *Netceptor) updateRoutingTable() {
 		}
 	}
 	s.routingPathCosts = cost
+	if verifhook.On {
+		verifhook.Emit(s.vn, "rebuild", "table", verifCopyTable(s.routingTable), "costs", verifFiniteCosts(cost), "known", verifCopyKnown(s.knownConnectionCosts))
+	}
 	routingTableCopy := make(map[string]string)
 	for k, v := range s.routingTable {
 		routingTableCopy[k] = v
@@ -920,6 +934,9 @@ func (s *Netceptor) SubscribeRoutingUpdates() chan map[string]string {
 func (s *Netceptor) flood(message []byte, excludeConn string) {
 	s.connLock.RLock()
 	defer s.connLock.RUnlock()
+	if verifhook.On {
+		verifhook.Emit(s.vn, "flood", "mtype", int(message[0]), "exclude", excludeConn, "targets", verifFloodTargets(s.connections, excludeConn), "msg", verifMsgSummary(message))
+	}
 	for conn, ci := range s.connections {
 		if conn != excludeConn {
 			go func(conn string, ci *connInfo) {
@@ -1282,6 +1299,7 @@ func (s *Netceptor) translateDataFromMessage(msg *MessageData) ([]byte, error) {
 // Forwards a message to its next hop.
 func (s *Netceptor) forwardMessage(md *MessageData) error {
 	if md.HopsToLive <= 0 {
+		verifhook.Emit(s.vn, "dp_expire", "from", md.FromNode, "fromsvc", md.FromService, "to", md.ToNode, "tosvc", md.ToService, "notice", md.FromService != "unreach")
 		if md.FromService != "unreach" {
 			_ = s.sendUnreachable(md.FromNode, &UnreachableMessage{
 				FromNode:    md.FromNode,
@@ -1298,12 +1316,16 @@ func (s *Netceptor) forwardMessage(md *MessageData) error {
 	nextHop, ok := s.routingTable[md.ToNode]
 	s.routingTableLock.RUnlock()
 	if !ok {
+		verifhook.Emit(s.vn, "dp_noroute", "to", md.ToNode, "why", "route")
+
 		return fmt.Errorf("no route to node")
 	}
 	s.connLock.RLock()
 	c, ok := s.connections[nextHop]
 	s.connLock.RUnlock()
 	if !ok || c.WriteChan == nil {
+		verifhook.Emit(s.vn, "dp_noroute", "to", md.ToNode, "why", "conn")
+
 		return fmt.Errorf("no connection to next hop")
 	}
 	message, err := s.translateDataFromMessage(md)
@@ -1312,6 +1334,7 @@ func (s *Netceptor) forwardMessage(md *MessageData) error {
 	}
 	// decrement HopsToLive
 	message[1]--
+	verifhook.Emit(s.vn, "dp_forward", "via", nextHop, "from", md.FromNode, "fromsvc", md.FromService, "to", md.ToNode, "tosvc", md.ToService, "ttl_in", int(md.HopsToLive), "ttl_out", int(message[1]), "len", len(md.Data))
 	s.Logger.Trace("    Forwarding data length %d via %s\n", len(md.Data), nextHop)
 	select {
 	case <-c.Context.Done():
@@ -1340,6 +1363,9 @@ func (s *Netceptor) SendMessageWithHopsToLive(fromService string, toNode string,
 	}
 	s.Logger.Trace("--- Sending data length %d from %s:%s to %s:%s\n", len(md.Data),
 		md.FromNode, md.FromService, md.ToNode, md.ToService)
+	if verifhook.On {
+		verifhook.Emit(s.vn, "dp_send", "fromsvc", fromService, "to", toNode, "tosvc", toService, "ttl", int(hopsToLive), "len", len(data), "sha", verifSha(data))
+	}
 
 	return s.handleMessageData(md)
 }
@@ -1411,6 +1437,9 @@ func (s *Netceptor) makeRoutingUpdate(suspectedDuplicate uint64) *routingUpdate 
 		ForwardingNode:     s.nodeID,
 		SuspectedDuplicate: suspectedDuplicate,
 	}
+	if verifhook.On {
+		verifhook.Emit(s.vn, "mk_update", "seq", update.UpdateSequence, "id", update.UpdateID, "conns", verifCopyCosts(conns), "susp", suspectedDuplicate)
+	}
 
 	return update
 }
@@ -1457,6 +1486,7 @@ func (s *Netceptor) handleRoutingUpdate(ri *routingUpdate, recvConn string) {
 		return
 	}
 	if ri.NodeID == s.nodeID {
+		verifhook.Emit(s.vn, "ru_self", "epoch", ri.UpdateEpoch, "susp", ri.SuspectedDuplicate, "id", ri.UpdateID, "via", recvConn)
 		if ri.UpdateEpoch == s.epoch {
 			return
 		}
@@ -1481,11 +1511,13 @@ func (s *Netceptor) handleRoutingUpdate(ri *routingUpdate, recvConn string) {
 	s.seenUpdatesLock.Lock()
 	_, ok := s.seenUpdates[ri.UpdateID]
 	if ok {
+		verifhook.Emit(s.vn, "ru_seen", "id", ri.UpdateID, "hit", true, "origin", ri.NodeID, "via", recvConn)
 		s.seenUpdatesLock.Unlock()
 
 		return
 	}
 	s.seenUpdates[ri.UpdateID] = time.Now()
+	verifhook.Emit(s.vn, "ru_seen", "id", ri.UpdateID, "hit", false, "origin", ri.NodeID, "via", recvConn)
 	s.seenUpdatesLock.Unlock()
 	if ri.SuspectedDuplicate != 0 {
 		s.Logger.SanitizedWarning("Node %s with epoch %d sent update %s suspecting a duplicate node with epoch %d\n", ri.NodeID, ri.UpdateEpoch, ri.UpdateID, ri.SuspectedDuplicate)
@@ -1497,6 +1529,9 @@ func (s *Netceptor) handleRoutingUpdate(ri *routingUpdate, recvConn string) {
 				s.knownNodeInfo[ri.NodeID].Sequence = ri.UpdateSequence
 			}
 		}
+		if verifhook.On {
+			verifhook.Emit(s.vn, "ru_dupnotice", "origin", ri.NodeID, "epoch", ri.UpdateEpoch, "seq", ri.UpdateSequence, "susp", ri.SuspectedDuplicate, "id", ri.UpdateID, "info", verifInfo(s.knownNodeInfo[ri.NodeID]))
+		}
 		s.knownNodeLock.Unlock()
 	} else {
 		s.Logger.SanitizedDebug("Received routing update %s from %s via %s\n", ri.UpdateID, ri.NodeID, recvConn)
@@ -1504,11 +1539,13 @@ func (s *Netceptor) handleRoutingUpdate(ri *routingUpdate, recvConn string) {
 		ni, ok := s.knownNodeInfo[ri.NodeID]
 		if ok {
 			if ri.UpdateEpoch < ni.Epoch {
+				verifhook.Emit(s.vn, "ru_apply", "origin", ri.NodeID, "epoch", ri.UpdateEpoch, "seq", ri.UpdateSequence, "id", ri.UpdateID, "result", "stale_epoch", "via", recvConn)
 				s.knownNodeLock.Unlock()
 
 				return
 			}
 			if ri.UpdateEpoch == ni.Epoch && ri.UpdateSequence <= ni.Sequence {
+				verifhook.Emit(s.vn, "ru_apply", "origin", ri.NodeID, "epoch", ri.UpdateEpoch, "seq", ri.UpdateSequence, "id", ri.UpdateID, "result", "stale_seq", "via", recvConn)
 				s.knownNodeLock.Unlock()
 
 				return
@@ -1548,6 +1585,9 @@ func (s *Netceptor) handleRoutingUpdate(ri *routingUpdate, recvConn string) {
 					delete(s.knownConnectionCosts[conn], ri.NodeID)
 				}
 			}
+		}
+		if verifhook.On {
+			verifhook.Emit(s.vn, "ru_apply", "origin", ri.NodeID, "epoch", ri.UpdateEpoch, "seq", ri.UpdateSequence, "id", ri.UpdateID, "result", "accepted", "changed", changed, "via", recvConn, "conns", verifCopyCosts(ri.Connections), "known", verifCopyKnown(s.knownConnectionCosts))
 		}
 		s.knownNodeLock.Unlock()
 		if changed {
@@ -1590,6 +1630,8 @@ func (s *Netceptor) handleUnreachable(md *MessageData) error {
 		md.HopsToLive,
 		unrMsg.Problem)
 
+	verifhook.Emit(s.vn, "unr_publish", "problem", unrMsg.Problem, "from", unrMsg.FromNode, "fromsvc", unrMsg.FromService, "to", unrMsg.ToNode, "tosvc", unrMsg.ToService, "via", md.FromNode)
+
 	return s.unreachableBroker.Publish(unrData)
 }
 
@@ -1629,6 +1671,9 @@ func (s *Netceptor) handleMessageData(md *MessageData) error {
 		}
 	}
 	s.firewallLock.RUnlock()
+	if verifhook.On {
+		verifhook.Emit(s.vn, "dp_fw", "result", int(result), "from", md.FromNode, "fromsvc", md.FromService, "to", md.ToNode, "tosvc", md.ToService, "ttl", int(md.HopsToLive), "len", len(md.Data))
+	}
 	switch result {
 	case FirewallResultAccept:
 		// do nothing
@@ -1661,6 +1706,7 @@ func (s *Netceptor) handleMessageData(md *MessageData) error {
 		pc, ok := s.listenerRegistry[md.ToService]
 		if !ok || pc.context.Err() != nil {
 			s.listenerLock.RUnlock()
+			verifhook.Emit(s.vn, "dp_unknown", "from", md.FromNode, "fromsvc", md.FromService, "tosvc", md.ToService, "local", md.FromNode == s.nodeID)
 			if md.FromNode == s.nodeID {
 				return fmt.Errorf(ProblemServiceUnknown) //nolint:staticcheck
 			}
@@ -1681,6 +1727,9 @@ func (s *Netceptor) handleMessageData(md *MessageData) error {
 
 			return nil
 		case pc.recvChan <- md:
+			if verifhook.On {
+				verifhook.Emit(s.vn, "dp_deliver", "svc", md.ToService, "from", md.FromNode, "fromsvc", md.FromService, "len", len(md.Data), "sha", verifSha(md.Data))
+			}
 		}
 
 		return nil
@@ -1732,8 +1781,11 @@ func (s *Netceptor) handleServiceAdvertisement(data []byte, receivedFrom string)
 		}
 	}
 	if keepCur {
+		verifhook.Emit(s.vn, "ad_recv", "owner", si.NodeID, "svc", si.Service, "time", si.Time.UnixNano(), "cancel", si.Cancel, "result", "kept_current", "via", receivedFrom)
+
 		return nil
 	}
+	verifhook.Emit(s.vn, "ad_recv", "owner", si.NodeID, "svc", si.Service, "time", si.Time.UnixNano(), "cancel", si.Cancel, "result", "applied", "via", receivedFrom)
 	if si.Cancel {
 		delete(s.serviceAdsReceived[si.NodeID], si.Service)
 		if len(s.serviceAdsReceived[si.NodeID]) == 0 {
@@ -1782,6 +1834,9 @@ func (ci *connInfo) protoWriter(sess BackendSession) {
 		case message, more := <-ci.WriteChan:
 			if !more {
 				return
+			}
+			if verifhook.On {
+				verifhook.Emit(ci.vn, "wire_send", "sess", ci.vsess, "msg", verifMsgSummary(message))
 			}
 			err := sess.Send(message)
 			if err != nil {
@@ -1854,6 +1909,7 @@ func (s *Netceptor) removeConnection(remoteNodeID string) {
 	if remoteNodeID != "" {
 		s.connLock.Lock()
 		delete(s.connections, remoteNodeID)
+		verifhook.Emit(s.vn, "conn_del", "peer", remoteNodeID)
 		s.connLock.Unlock()
 		s.knownNodeLock.Lock()
 		_, ok := s.knownConnectionCosts[remoteNodeID]
@@ -1863,6 +1919,9 @@ func (s *Netceptor) removeConnection(remoteNodeID string) {
 		_, ok = s.knownConnectionCosts[s.nodeID]
 		if ok {
 			delete(s.knownConnectionCosts[s.nodeID], remoteNodeID)
+		}
+		if verifhook.On {
+			verifhook.Emit(s.vn, "known_del", "peer", remoteNodeID, "known", verifCopyKnown(s.knownConnectionCosts))
 		}
 		s.knownNodeLock.Unlock()
 	}
@@ -1878,6 +1937,7 @@ func (s *Netceptor) runProtocol(ctx context.Context, sess BackendSession, bi *Ba
 	remoteNodeID := ""
 	connectionCost := bi.connectionCost
 	defer func() {
+		verifhook.Emit(s.vn, "sess_end", "sess", fmt.Sprintf("%p", sess), "est", established, "peer", remoteNodeID)
 		_ = sess.Close()
 		if established {
 			select {
@@ -1900,6 +1960,8 @@ func (s *Netceptor) runProtocol(ctx context.Context, sess BackendSession, bi *Ba
 		logger:           s.Logger,
 	}
 	ci.Context, ci.CancelFunc = context.WithCancel(ctx)
+	ci.vn, ci.vsess = s.vn, fmt.Sprintf("%p", sess)
+	verifhook.Emit(s.vn, "sess_start", "sess", ci.vsess)
 	go ci.protoReader(sess)
 	go ci.protoWriter(sess)
 	initDoneChan := make(chan bool)
@@ -1907,6 +1969,9 @@ func (s *Netceptor) runProtocol(ctx context.Context, sess BackendSession, bi *Ba
 	for {
 		select {
 		case data := <-ci.ReadChan:
+			if verifhook.On {
+				verifhook.Emit(s.vn, "recv", "sess", ci.vsess, "est", established, "peer", remoteNodeID, "len", len(data), "msg", verifMsgSummary(data))
+			}
 			msgType := data[0]
 			if established {
 				switch msgType {
@@ -1932,6 +1997,7 @@ func (s *Netceptor) runProtocol(ctx context.Context, sess BackendSession, bi *Ba
 						continue
 					}
 					if ri.ForwardingNode != remoteNodeID {
+						verifhook.Emit(s.vn, "reject", "sess", ci.vsess, "peer", remoteNodeID, "why", "id_changed")
 						s.removeConnection(remoteNodeID)
 
 						return s.sendAndLogConnectionRejection(remoteNodeID, ci,
@@ -1943,6 +2009,7 @@ func (s *Netceptor) runProtocol(ctx context.Context, sess BackendSession, bi *Ba
 						remoteCost, ok := ri.Connections[s.nodeID]
 						if !ok {
 							if remoteEstablished {
+								verifhook.Emit(s.vn, "reject", "sess", ci.vsess, "peer", remoteNodeID, "why", "dropped_us")
 								s.removeConnection(remoteNodeID)
 
 								return s.sendAndLogConnectionRejection(remoteNodeID, ci, "remote node no longer lists us as a connection")
@@ -1952,6 +2019,7 @@ func (s *Netceptor) runProtocol(ctx context.Context, sess BackendSession, bi *Ba
 						}
 						remoteEstablished = true
 						if ok && remoteCost != connectionCost {
+							verifhook.Emit(s.vn, "reject", "sess", ci.vsess, "peer", remoteNodeID, "why", "cost")
 							s.removeConnection(remoteNodeID)
 
 							return s.sendAndLogConnectionRejection(remoteNodeID, ci, "we disagree about the connection cost")
@@ -1967,6 +2035,7 @@ func (s *Netceptor) runProtocol(ctx context.Context, sess BackendSession, bi *Ba
 					}
 				case MsgTypeReject:
 					s.Logger.Warning("Received a rejection message from peer.")
+					verifhook.Emit(s.vn, "reject", "sess", ci.vsess, "peer", remoteNodeID, "why", "peer_rejected")
 					s.removeConnection(remoteNodeID)
 
 					return fmt.Errorf("remote node rejected the connection")
@@ -1986,6 +2055,8 @@ func (s *Netceptor) runProtocol(ctx context.Context, sess BackendSession, bi *Ba
 					remoteNodeID = ri.ForwardingNode
 					// Decide whether the remote node is acceptable
 					if remoteNodeID == s.nodeID {
+						verifhook.Emit(s.vn, "reject", "sess", ci.vsess, "peer", remoteNodeID, "why", "self")
+
 						return s.sendAndLogConnectionRejection(remoteNodeID, ci, "it tried to connect using our own node ID")
 					}
 					remoteNodeAccepted := true
@@ -2000,6 +2071,8 @@ func (s *Netceptor) runProtocol(ctx context.Context, sess BackendSession, bi *Ba
 						}
 					}
 					if !remoteNodeAccepted {
+						verifhook.Emit(s.vn, "reject", "sess", ci.vsess, "peer", remoteNodeID, "why", "not_allowed")
+
 						return s.sendAndLogConnectionRejection(remoteNodeID, ci, "it is not in the allowed peers list")
 					}
 
@@ -2017,11 +2090,13 @@ func (s *Netceptor) runProtocol(ctx context.Context, sess BackendSession, bi *Ba
 						}
 					}
 					if !remoteNodeAccepted {
+						verifhook.Emit(s.vn, "reject", "sess", ci.vsess, "peer", remoteNodeID, "why", "already_connected")
 						s.connLock.Unlock()
 
 						return s.sendAndLogConnectionRejection(remoteNodeID, ci, "it connected using a node ID we are already connected to")
 					}
 					s.connections[remoteNodeID] = ci
+					verifhook.Emit(s.vn, "conn_add", "sess", ci.vsess, "peer", remoteNodeID, "cost", connectionCost)
 					s.connLock.Unlock()
 
 					// Establish the connection
@@ -2049,6 +2124,9 @@ func (s *Netceptor) runProtocol(ctx context.Context, sess BackendSession, bi *Ba
 						s.knownConnectionCosts[remoteNodeID] = make(map[string]float64)
 					}
 					s.knownConnectionCosts[remoteNodeID][s.nodeID] = connectionCost
+					if verifhook.On {
+						verifhook.Emit(s.vn, "known_add", "peer", remoteNodeID, "cost", connectionCost, "known", verifCopyKnown(s.knownConnectionCosts))
+					}
 					s.knownNodeLock.Unlock()
 					select {
 					case s.sendRouteFloodChan <- 0:
@@ -2069,6 +2147,7 @@ func (s *Netceptor) runProtocol(ctx context.Context, sess BackendSession, bi *Ba
 						return nil
 					}
 					established = true
+					verifhook.Emit(s.vn, "established", "sess", ci.vsess, "peer", remoteNodeID)
 				} else if msgType == MsgTypeReject {
 					s.Logger.Warning("Received a rejection message from peer.")
 					s.removeConnection(remoteNodeID)
